@@ -182,6 +182,13 @@ func (ts *timeSeries) AddWithTime(observation Observable, t time.Time) {
 	if t.After(ts.pendingTime) {
 		ts.advance(t)
 		ts.mergePendingUpdates()
+		if !t.After(ts.levels[0].end.Add(-1 * smallBucketDuration)) {
+			// A read has already advanced the levels past t, so t does
+			// not fall into the newest bucket: merge the observation into
+			// the bucket of its own time instead of the pending one.
+			ts.mergeValue(observation, t)
+			return
+		}
 		ts.pendingTime = ts.levels[0].end
 		ts.pending.CopyFrom(observation)
 		ts.dirty = true
